@@ -17,14 +17,16 @@ var verifFamilies = [][]string{
 	{"/a/{x}/{y}", "/a/{x}", "/b"},
 	{"/{x}/b", "/a/c"},
 	{"/", "/a/", "/a/{x}/c"},
-	{"/b", "/{x}"}, // a literal and a templated sibling at the top: the method may be declared on the templated one only
+	{"/b", "/{x}"},   // a literal and a templated sibling at the top: the method may be declared on the templated one only
+	{"/ab", "/a{x}"}, // a variable after a literal prefix inside the segment, next to a literal sibling with that prefix
+	{"/a{x}/c", "/ab/c", "/b{y}"},
 }
 
 func verifVars(tmpl string) []string {
 	var out []string
 	for _, seg := range strings.Split(tmpl, "/") {
-		if strings.HasPrefix(seg, "{") && strings.HasSuffix(seg, "}") {
-			out = append(out, seg[1:len(seg)-1])
+		if i := strings.IndexByte(seg, '{'); i >= 0 && strings.HasSuffix(seg, "}") {
+			out = append(out, seg[i+1:len(seg)-1])
 		}
 	}
 	return out
@@ -75,11 +77,12 @@ func verifRefMatch(tmpl, path string) (map[string]string, bool) {
 	}
 	params := map[string]string{}
 	for i := range ts {
-		if strings.HasPrefix(ts[i], "{") && strings.HasSuffix(ts[i], "}") {
-			if ps[i] == "" {
+		if k := strings.IndexByte(ts[i], '{'); k >= 0 && strings.HasSuffix(ts[i], "}") {
+			// literal prefix, then the variable (k == 0: the whole segment is the variable)
+			if !strings.HasPrefix(ps[i], ts[i][:k]) || len(ps[i]) == k {
 				return nil, false
 			}
-			params[ts[i][1:len(ts[i])-1]] = ps[i]
+			params[ts[i][k+1:len(ts[i])-1]] = ps[i][k:]
 			continue
 		}
 		if ts[i] != ps[i] {
@@ -154,7 +157,7 @@ func verifC09(maxLen int) {
 	verifReach("end")
 }
 
-//verif:harness id=C09 tier=quick witness=end bounds="legacy router, no servers: 6 template families (shared prefixes, 0-2 variables, literal/templated siblings, trailing-slash variants), POST on one path, methods GET/POST/PUT x every request path '/'+ up to 4 bytes over {/,a,b,c}"
+//verif:harness id=C09 tier=quick witness=end bounds="legacy router, no servers: 8 template families (shared prefixes, 0-2 variables, literal/templated siblings, trailing-slash variants, variables after a literal prefix inside a segment), POST on one path, methods GET/POST/PUT x every request path '/'+ up to 4 bytes over {/,a,b,c}"
 func verifH_C09_legacy() { verifC09(5) }
 
 //verif:harness id=C09 tier=thorough witness=end bounds="as quick with request paths of up to 7 bytes"
